@@ -25,6 +25,8 @@ def run(ck, an, tier):
     from rules import C06, C13
     C06.s7(Renamed(ck, "C06:"), an)       # the interest recorded is the interest actually accrued, once, at the request's time
     C13.s4(Renamed(ck, "C13:"), an)       # the trades recorded are exactly the trades executed
+    from rules import ledger
+    ledger.transact_equations(Renamed(ck, "C01:"), an, {"equations"})     # ... and executing a recorded trade books exactly that trade (quantity, commission, cash), on every call
     s1_s2(ck, an)
     s3(ck, an)
     s4(ck, an)
